@@ -615,8 +615,8 @@ func main() {
 			light = append(light, p)
 		}
 	}
-	results := harness.ExploreBatch("concurrent", light, harness.Pick(c, 2, 3), harness.Pick(c, 90*time.Second, 30*time.Minute), false)
-	results = append(results, harness.ExploreBatch("concurrent", heavy, harness.Pick(c, 1, 2), harness.Pick(c, 90*time.Second, 30*time.Minute), false)...)
+	results := harness.ExploreBatch("concurrent", light, harness.Pick(c, 2, 3), harness.Pick(c, 90*time.Second, 8*time.Minute), false)
+	results = append(results, harness.ExploreBatch("concurrent", heavy, harness.Pick(c, 1, 2), harness.Pick(c, 90*time.Second, 8*time.Minute), false)...)
 	for _, r := range results {
 		c.Sample(map[string]any{"scenario": r.Param, "threads": fmt.Sprint(concSets[strings.Split(r.Param, "@")[0]]), "executions": r.Stats.Execs, "observations": len(r.Stats.Observations)})
 		c.AddExploration("concurrent", r.Param, r.Stats, harness.Confirm(concScenario(r.Param)))
